@@ -49,6 +49,8 @@ def configs(tier, seed):
         _cfg((130, 2, 2), "uint8", ["--downscaling-method", "average", "--outside-value", "5"]),
         _cfg((130, 2, 1), "uint8", ["--encoding", "compressed_segmentation", "--type", "segmentation"], two_labels=True, cost=8),
         _cfg((64, 3, 2), "uint16", []),                                                # single scale
+        _cfg((130, 2, 3), "uint8", ["--downscaling-method", "stride"], vs=[1.0, 1.0, 4.0]),   # anisotropic: chunk sizes change between scales
+        _cfg((70, 131, 2), "uint16", ["--downscaling-method", "average"], vs=[2.0, 1.0, 1.0]),
     ]
     if tier == "thorough":
         out += [_cfg((260, 2, 1), "uint8", ["--downscaling-method", "average"]), _cfg((130, 130, 1), "uint8", ["--flat", "--no-gzip"], cost=20),
@@ -140,7 +142,7 @@ def H_pipeline(ctx, cfg):
         ctx.input("volume", [x.__zexpr__() for x in vol.a.ravel()])
     for fid, expr in regions_for(PROPERTY, "pipeline"):
         ctx.region(fid, builtins.bool(eval(expr, {"cfg": cfg})))
-    affine = real_np.diag([2.0, 2.0, 2.0, 1.0])
+    affine = real_np.diag(list(cfg.get("vs", [2.0, 2.0, 2.0])) + [1.0])
     W.images["/in/vol.nii"] = V.FakeImage(vol, affine=affine)
     acc_o, gen_o, comp_o = _split_opts(opts)
     pyr = W.script("volume_to_precomputed_pyramid", nibabel=W.nibabel)
@@ -215,7 +217,7 @@ def replay(cfg, cex):
     acc_o, gen_o, comp_o = _split_opts(opts)
     with tempfile.TemporaryDirectory() as td:
         fn = os.path.join(td, "vol.nii")
-        nibabel.save(nibabel.Nifti1Image(vol, real_np.diag([2.0, 2.0, 2.0, 1.0])), fn)
+        nibabel.save(nibabel.Nifti1Image(vol, real_np.diag(list(cfg.get("vs", [2.0, 2.0, 2.0])) + [1.0])), fn)
         p1, p2 = os.path.join(td, "p1"), os.path.join(td, "p2")
 
         def run(mod, argv):
